@@ -51,6 +51,9 @@ def run_plan(plan_data, keep_events=True):
     endings = []
     try:
         epochs = scenario.get("epochs") or [{}]
+        if scenario.get("tool"):
+            epochs = []
+            endings.append(run_tool_scenario(sim, scenario, logs_dir))
         for i, epoch_cfg in enumerate(epochs):
             sim.epoch = i
             sim.exec_counts = {}
@@ -76,6 +79,27 @@ def run_plan(plan_data, keep_events=True):
         "scenario": {k: v for k, v in scenario.items() if not k.startswith("_")},
     }
     return history
+
+
+def run_tool_scenario(sim, scenario, logs_dir):
+    """C15/C20: drive intertest_setup.update or Manu.run with the selftests' job seam."""
+    from virttest import utils_params
+    from avocado_i2n import intertest_setup
+    tool = scenario["tool"]
+    if tool == "update":
+        config = {"available_vms": dict(scenario["available_vms"]),
+                  "available_restrictions": ["leaves", "normal", "minimal"],
+                  "param_dict": dict(scenario.get("params", {}), nets=scenario["nets"]),
+                  "tests_str": {}, "tests_params": utils_params.Params(),
+                  "vms_params": utils_params.Params(dict(scenario.get("vms_params", {}))),
+                  "vm_strs": dict(scenario["vm_strs"])}
+        return harness.run_tool(sim, lambda: intertest_setup.update(config, tag="1r"), logs_dir)
+    if tool == "manu":
+        from avocado_i2n.plugins.manu import Manu
+        config = {"i2n.manu.params": list(scenario["argv"]), "datadir.paths.logs_dir": logs_dir}
+        manu = Manu.__new__(Manu)
+        return harness.run_tool(sim, lambda: manu.run(config), logs_dir)
+    raise AssertionError(tool)
 
 
 def interleaving_hash(history):
